@@ -94,11 +94,16 @@ package types
 //@   property C09
 //@   requires h != nil
 //@   loop 0: invariant fresh(txHashes) && len(txHashes) == rangeidx() + 1
-//@   loop 1: invariant fresh(hashBytes2)
+//@   loop 0: invariant forall k int :: 0 <= k && k <= rangeidx() ==> txHashes[k] != nil && bytes(txHashes[k].Hash) == bytes(h.Transactions[k][0]) && bytes(txHashes[k].SubHash) == bytes(h.Transactions[k][1])
+//@   loop 1: invariant fresh(hashBytes2) && len(hashBytes2) == rangeidx() + 1
+//@   loop 1: invariant len(txHashes) == len(h.Transactions) && forall k int :: 0 <= k && k < len(h.Transactions) ==> txHashes[k] != nil && bytes(txHashes[k].Hash) == bytes(h.Transactions[k][0]) && bytes(txHashes[k].SubHash) == bytes(h.Transactions[k][1])
+//@   loop 1: invariant forall k int :: 0 <= k && k <= rangeidx() ==> bytes(hashBytes2[k]) == bytes(h.EvictedTxs[k])
 //@   ensures [height] result != nil ==> result.Height != nil && *result.Height == h.Height
 //@   ensures [nonce]  result != nil ==> result.Nonce != nil && *result.Nonce == h.Nonce
 //@   ensures [qn]     result != nil ==> result.TotalQN != nil && *result.TotalQN == h.TotalQN
 //@   ensures [sig]    result != nil ==> ref(result.Signature) == ref(h.Signature) && len(result.Signature) == len(h.Signature) && ref(result.Castor) == ref(h.Castor) && ref(result.GroupId) == ref(h.GroupId) && ref(result.Random) == ref(h.Random) && ref(result.ExtraData) == ref(h.ExtraData)
+//@   ensures [txhashes]  result != nil ==> forall k int :: 0 <= k && k < len(h.Transactions) ==> result.Transactions[k] != nil && bytes(result.Transactions[k].Hash) == bytes(h.Transactions[k][0]) && bytes(result.Transactions[k].SubHash) == bytes(h.Transactions[k][1])
+//@   ensures [evicted]   result != nil ==> result.EvictedTxs != nil && len(result.EvictedTxs.Hashes) == len(h.EvictedTxs) && forall k int :: 0 <= k && k < len(h.EvictedTxs) ==> bytes(result.EvictedTxs.Hashes[k]) == bytes(h.EvictedTxs[k])
 //@   ensures [pvpresent] result != nil && h.ProveValue != nil ==> result.ProveValue != nil
 //@   ensures [pvabsent]  result != nil && h.ProveValue == nil ==> result.ProveValue == nil
 //@   ensures [txcount] result != nil ==> len(result.Transactions) == len(h.Transactions)
